@@ -92,6 +92,19 @@ fn paths() -> Vec<PathSpec> {
         p(vec![M(0., -far), Q(far, 0., 0., far), Q(-far, 0., 0., -far)]),
         p(vec![M(0.5, 0.5), Q(1.5, 0.5000001, 2.5, 0.5)]),
         p(vec![M(0.5, 0.5), C(0.5, 1.5, 0.5, 1.5, 0.5, 0.5), Z]),
+        // boundary values of the quad-chopping guards (valid_unit_divide / is_not_monotonic):
+        // barely non-monotonic quads whose chop ratio rounds to exactly 1, underflows, or has a zero numerator
+        p(vec![M(0.5, 1.0), Q(1.5, 0.0, 2.5, 1e-8)]),
+        p(vec![M(0.5, -100.0), Q(1.5, 0.0, 2.5, -1e-6), Z]),
+        p(vec![M(0.0, 1.0), Q(1.0, 0.0, 2.0, f32::MIN_POSITIVE), Z]),
+        p(vec![M(0.0, 0.0), Q(1.0, -1e-30, 2.0, 1.0), Z]),
+        p(vec![M(0.0, 1.0), Q(1.0, 1.0, 2.0, 0.0), L(0.0, 0.0)]),
+        p(vec![M(0.0, 1000.0), Q(1.0, 0.5, 3.0, 0.50001), L(0.0, 0.0)]),
+        // edges ending exactly on the top edge of the surface / starting exactly on its bottom edge
+        PathSpec::rect(0., -2., 3., 2.),
+        PathSpec::rect(0., 2., 3., 2.),
+        PathSpec::rect(0., -0.25, 3., 0.5),
+        PathSpec::rect(-0.25, 1.75, 3.5, 0.5),
     ]
 }
 
@@ -187,6 +200,11 @@ fn dashes() -> Vec<Vec<f32>> {
         vec![f32::INFINITY],
         vec![0.05, 0.05],
         vec![0.5, 0.25, 0.125],
+        // odd-length arrays whose sum is finite but whose doubled period overflows
+        vec![f32::MAX],
+        vec![3e38],
+        vec![1e38, 1e38, 1e38],
+        vec![1e38, 1e38, 1e38, 1e38],
     ]
 }
 
@@ -776,11 +794,23 @@ impl Check for C07 {
                 run.sample(s.to_string());
             }
         }
+        let stalls = std::sync::atomic::AtomicUsize::new(0);
         run.par(work.len(), |wi, l| {
             let (gi, s0, s1) = work[wi];
             let (g, bound) = &items[gi];
             l.states += (s1 - s0) as u64;
-            let res = run_group(&["c07-child".to_string(), g.clone(), bound.to_string(), s1.to_string()], hz, 8 * 1024 * 1024, s0);
+            if stalls.load(std::sync::atomic::Ordering::Relaxed) >= 8 {
+                l.count("chunks_not_run_after_repeated_stalls", 1);
+                run.machinery_note_incomplete();
+                return;
+            }
+            let res = run_group(&["c07-child".to_string(), g.clone(), bound.to_string(), s1.to_string()], hz, 8 * 1024 * 1024, s0, 2);
+            let nstall = res.events.iter().filter(|e| matches!(e, ChildEvent::Hang(_) | ChildEvent::Died(..))).count();
+            stalls.fetch_add(nstall, std::sync::atomic::Ordering::Relaxed);
+            if res.aborted_after.is_some() {
+                l.count("chunks_abandoned_after_two_stalls", 1);
+                run.machinery_note_incomplete();
+            }
             l.traces += res.cases;
             l.evals += res.cases;
             l.transitions += res.transitions;
@@ -791,15 +821,19 @@ impl Check for C07 {
             for e in &res.errors {
                 run.machinery_error(format!("group {} [{}, {}): {}", g, s0, s1, e));
             }
-            if res.cases != (s1 - s0) as u64 && res.errors.is_empty() {
+            if res.cases != (s1 - s0) as u64 && res.errors.is_empty() && res.aborted_after.is_none() {
                 run.machinery_error(format!("group {} [{}, {}): children reported {} cases", g, s0, s1, res.cases));
             }
-            for ev in &res.events {
-                let idx = match ev {
-                    ChildEvent::Panic(i, _) | ChildEvent::Complaint(i, _, _) | ChildEvent::Hang(i) | ChildEvent::Died(i, _) => *i,
-                };
-                if let Some(s) = gen_group(g, *bound, idx, idx + 1).0.pop() {
-                    run.report(gi * 100_000_000 + idx, event_violation(&s, ev));
+            if !res.events.is_empty() {
+                // regenerate this chunk's scenes once to attribute the events
+                let scenes = gen_group(g, *bound, s0, s1).0;
+                for ev in &res.events {
+                    let idx = match ev {
+                        ChildEvent::Panic(i, _) | ChildEvent::Complaint(i, _, _) | ChildEvent::Hang(i) | ChildEvent::Died(i, _) => *i,
+                    };
+                    if let Some(s) = scenes.get(idx.wrapping_sub(s0)) {
+                        run.report(gi * 100_000_000 + idx, event_violation(s, ev));
+                    }
                 }
             }
         });
@@ -812,7 +846,7 @@ impl Check for C07 {
         let _ = std::fs::create_dir_all(&dir);
         let path = dir.join(format!("c07-replay-{}-{}.scene", std::process::id(), hash64(&case.to_string())));
         std::fs::write(&path, case).map_err(|e| e.to_string())?;
-        let res = run_group(&["c07-one".to_string(), path.to_string_lossy().to_string()], horizon(), 8 * 1024 * 1024, 0);
+        let res = run_group(&["c07-one".to_string(), path.to_string_lossy().to_string()], horizon(), 8 * 1024 * 1024, 0, 1);
         let _ = std::fs::remove_file(&path);
         if let Some(e) = res.errors.first() {
             return Err(e.clone());
